@@ -3,7 +3,8 @@
 Copies a confirmed seeded change into /verif/seeded/<property>-<mN>/."""
 import sys, os, shutil, json, re
 wt, prop, m, caught, needs = sys.argv[1:6]
-d = f"/verif/seeded/{prop}-{m}"
+name = sys.argv[6] if len(sys.argv) > 6 else m
+d = f"/verif/seeded/{prop}-{name}"
 os.makedirs(d, exist_ok=True)
 shutil.copy(f"{wt}/SEEDED/{m}.diff", f"{d}/patch.diff")
 shutil.copy(f"{wt}/SEEDED/{m}_demo.rs", f"{d}/demo.rs")
@@ -15,7 +16,7 @@ def grab(path, pat):
         return None
 meta = {
   "property": prop,
-  "id": f"{prop}-{m}",
+  "id": f"{prop}-{name}",
   "files_changed": sorted(set(re.findall(r"^\+\+\+ b/(\S+)", open(f"{d}/patch.diff").read(), re.M))),
   "needs_to_manifest": needs,
   "author": "independent sub-agent given only the property text and a scratch worktree",
